@@ -705,6 +705,26 @@ fn variants(sys: &Sys, t: f64, x: f64, s: f64, ntot: f64, pb: f64, pd: f64, bub:
             });
             record(worst, kind, res, must, json!({"T_flash": tt, "p_flash": pp, "T_initial_state": t, "p_initial_state": p0, "requested_tolerance": tl}));
         }
+        // a guess that is an equilibrium at the same T and p but of ANOTHER feed on the same tie line: the returned amounts
+        // have to be those of the actual feed
+        {
+            let (xl, yv) = (fl0.liquid().molefracs[0], fl0.vapor().molefracs[0]);
+            let w = rng.range(0.1, 0.9);
+            let z0 = xl + w * (yv - xl);
+            let n2 = ntot * rng.range(0.5, 2.0);
+            let feed2 = Moles::from_reduced(arr1(&[z0 * n2, (1.0 - z0) * n2]));
+            let fr2 = feed2.to_reduced();
+            for (kind, opt, tl) in [("flash_init_other_feed", SolverOptions::default(), 1e-8), ("flash_init_other_feed_tol_1e-6", SolverOptions::new().tol(1e-6), 1e-6)] {
+                let r = run_guard(|| Vle::tp_flash(&sys.eos, temp, Pressure::from_reduced(p0), &feed2, Some(fl0), opt, None));
+                let res = r.map(|vle| {
+                    let mut bad = common_checks_tol(&vle, Some(t), worst, Tol::flash(tl));
+                    flash_spec_checks(&vle, p0, &fr2, worst, &mut bad);
+                    bad
+                });
+                record(worst, kind, res, true, json!({"feed": fr2.to_vec(), "feed_of_the_initial_state": fr.to_vec(), "p_flash": p0, "requested_tolerance": tl,
+                    "initial_state_vapor_moles": fl0.vapor().moles.to_reduced().to_vec(), "initial_state_liquid_moles": fl0.liquid().moles.to_reduced().to_vec()}));
+            }
+        }
         // PhaseDiagram::lle = a chain of flashes, each started from the previous one: isobaric (T varies) and isothermal
         for iso_p in [true, false] {
             let n = 4usize;
